@@ -367,6 +367,34 @@ fn run_adi0(c: &CandleStream, st: &mut Stats) -> CaseResult {
 	Ok(())
 }
 
+// ---------------------------------------------------------------------------------------
+// bounded-exhaustive small scope: dyadic data on dyadic smoothing constants
+
+/// Every stream of length <= 6 (thorough 8) over {0, 1, 2, 4} for the lengths whose smoothing constant is a power
+/// of two (1, 3, 7 for the EMA family: 2/(n+1); 1, 2, 4 for RMA/WSMA: 1/n) and two others, with every letter as
+/// construction value. On such data the recurrences are exact, so that an input can *equal* the current state
+/// bit for bit - the ties that real-valued generators never produce.
+fn exhaustive_small(tier: Tier, spec_index: usize) -> Box<dyn Iterator<Item = ValStream>> {
+	let letters = [0.0f64, 1.0, 2.0, 4.0];
+	let maxl = tier.pick(6u32, 8);
+	let max_n = specs()[spec_index].max_n;
+	let mut out = Vec::new();
+	for l in 1..=maxl {
+		for code in 0..4u64.pow(l) {
+			let xs: Vec<f64> = (0..l).map(|k| letters[((code >> (2 * k)) & 3) as usize]).collect();
+			for n in [1u32, 2, 3, 4, 7] {
+				if n > max_n {
+					continue;
+				}
+				for init in letters {
+					out.push(ValStream { n, init, xs: xs.clone() });
+				}
+			}
+		}
+	}
+	Box::new(out.into_iter())
+}
+
 pub fn def(tier: Tier) -> PropertyDef {
 	let mut checks: Vec<Box<dyn SubCheck>> = Vec::new();
 	let max_len = tier.pick(512usize, 2048);
@@ -376,6 +404,10 @@ pub fn def(tier: Tier) -> PropertyDef {
 		let max_n = spec.max_n;
 		checks.push(pt(name, cases, len_stream(max_n, max_len), move |c: &ValStream, st| run_spec(&spec, c, st)));
 	}
+	for (i, spec) in specs().into_iter().enumerate() {
+		let name = spec.name;
+		checks.push(engine::enumerate(&format!("exhaustive_small_{name}"), move |tier, _| exhaustive_small(tier, i), move |c: &ValStream, st| run_spec(&spec, c, st)));
+	}
 	checks.push(pt("TSI", cases, tsi_strategy(max_len, tier), run_tsi));
 	checks.push(pt("Vidya", cases, gen::val_stream(1, max_len, Domain::Any, true), run_vidya));
 	checks.push(pt("TR", cases, gen::candle_stream(1, max_len.min(600)), run_tr));
@@ -384,7 +416,7 @@ pub fn def(tier: Tier) -> PropertyDef {
 	PropertyDef {
 		id: "C03",
 		level: "exploration",
-		rule: "proptest: the same segment-built streams as C02 (<= 512 / 2048 steps), all lengths 1..=254 (1..=127 for WSMA), TSI on a boundary grid of (short,long) pairs incl. short>long (thorough: also random pairs), valid candle streams for TR/HeikinAshi/ADI(0). Oracle: the documented recurrence re-implemented independently (f64), compared at every step inside the allowance of DESIGN 4.2 (quotient rule for TSI; Vidya: change sums from scratch, carried error, hull predicate on ill-conditioned steps). Non-trivial = stream longer than 2n with >= 3 distinct values (Vidya/TSI: movement present); class plateau-after-movement is counted.",
+		rule: "Bounded-exhaustive (exhaustive_small_*): every stream of length <= 6 (thorough 8) over {0,1,2,4} for n in {1,2,3,4,7} with every letter as construction value, for each recurrence of the EMA family - dyadic data on dyadic smoothing constants, where an input can equal the current state bit for bit. proptest: the same segment-built streams as C02 (<= 512 / 2048 steps), all lengths 1..=254 (1..=127 for WSMA), TSI on a boundary grid of (short,long) pairs incl. short>long (thorough: also random pairs), valid candle streams for TR/HeikinAshi/ADI(0). Oracle: the documented recurrence re-implemented independently (f64), compared at every step inside the allowance of DESIGN 4.2 (quotient rule for TSI; Vidya: change sums from scratch, carried error, hull predicate on ill-conditioned steps). Non-trivial = stream longer than 2n with >= 3 distinct values (Vidya/TSI: movement present); class plateau-after-movement is counted.",
 		assumptions: vec!["magnitude domain of DESIGN §3; K = 256".into(), "Vidya: on steps where both change sums are within their allowance of zero after movement (the recurrence's branch is undetermined) or the CMO quotient is ill-conditioned, the output must lie in the hull of input and previous output and the reference is re-seeded from it; counted as reseeded/exempt steps".into()],
 		exhaustive: false,
 		checks,
